@@ -322,8 +322,8 @@ Definition pick_repeat_ok (s : list bytes) (n : Z) (xs : list bytes) : bool :=
 
 (** srandmember(count): count = None is the handler's call with 1 and a bulk reply.
     count < 0: checked_neg refuses i64::MIN ("value is out of range"), otherwise -count
-    independent draws (the loop runs -count times whatever the set's size: the work is
-    not bounded by input + state, see known_findings.json srandmember-neg-work). *)
+    independent draws, at most 2^20 of them since 9dd4676 (the work of a refused or accepted
+    call is bounded by that constant). *)
 Definition e_srandmember (count : option Z) (oracle : option frame) (cur : option value) : frame * upd :=
   match cur with
   | Some (VSet s) =>
@@ -346,6 +346,9 @@ Definition e_srandmember (count : option Z) (oracle : option frame) (cur : optio
               | None => (BADORACLE, Keep)
               end
             else if c =? i64_min then (r_err, Keep)
+            (* 9dd4676: more than 2^20 draws are refused (the 512 MB reply cap is not modelled:
+               the generator's members are short) *)
+            else if 1048576 <? - c then (r_err, Keep)
             else
               match oracle_bulks oracle with
               | Some xs => if pick_repeat_ok s (- c) xs
